@@ -9,7 +9,7 @@
 (* <<"fail", clause>> naming the first clause the observation falsifies.   *)
 (* These operators are the only source of VIOLATION lines.                 *)
 (***************************************************************************)
-EXTENDS Integers, Sequences, FiniteSets, BigNat, Notes, Tempo, FramingP, Lines, Render, Durations
+EXTENDS Integers, Sequences, FiniteSets, BigNat, Notes, Tempo, FramingP, Lines, Render, Durations, Errors
 
 \* first failing clause of a sequence of <<name, bool>> pairs
 RECURSIVE FirstFail(_)
@@ -463,6 +463,12 @@ X02V(r) == FirstFail(<<
   <<"ticks-is-resolution-over-value-rounded-half-even", r.ticks = DurationTicks(r.res, r.name)>>
 >>)
 
+\* X03: the model's reject reason and the message of the exception the code raised
+X03V(r) == FirstFail(<<
+  <<"exception-class", r.cls = r.wantcls>>,
+  <<"message-of-the-reject-branch", MessageMatches(r.reason, r.msg)>>
+>>)
+
 (***************************** dispatch ************************************)
 VerdictOf(p, r) ==
   CASE p = "C02" -> C02V(r)
@@ -472,6 +478,7 @@ VerdictOf(p, r) ==
     [] p = "C08" -> C08V(r)
     [] p = "X01" -> X01V(r)
     [] p = "X02" -> X02V(r)
+    [] p = "X03" -> X03V(r)
     [] p = "C07" -> C07V(r)
     [] p = "C09" -> C09V(r)
     [] p = "C10" -> C10V(r)
